@@ -326,6 +326,9 @@ func runHist(r *rep.R, prop string) {
 	r.Bound("history_depth_D", D)
 	r.Bound("attempt_horizon_A", A)
 	r.Bound("deviations_K", K)
+	if thorough(r) {
+		r.Bound("deviations_K_depth<=2", 3)
+	}
 	var idx int64
 	suites := []ref.Suite{{1, 1, 1}}
 	if thorough(r) {
@@ -359,7 +362,11 @@ func runHist(r *rep.R, prop string) {
 					ops = append(append([]int{}, h...), opClose)
 				}
 				cfg := histCfg{Suite: s, InSession: inSess, Ops: ops, Horizon: A, Alphabet: "retry"}
-				histExplore(r, prop, cfg, K, &idx)
+				kk := K
+				if thorough(r) && len(h) <= 2 && si == 0 {
+					kk = 3 // three deviations on the shorter histories
+				}
+				histExplore(r, prop, cfg, kk, &idx)
 			}
 		}
 	}
